@@ -13,7 +13,9 @@ mod tmq;
 use qmluic::diagnostic::{DiagnosticKind, Diagnostics};
 use qmluic::metatype;
 use qmluic::metatype_tweak;
-use qmluic::qmldoc::UiDocument;
+use qmluic::diagnostic::ProjectDiagnostics;
+use qmluic::qmldir;
+use qmluic::qmldoc::{UiDocument, UiDocumentsCache};
 use qmluic::qtname::FileNameRules;
 use qmluic::typemap::{ModuleData, ModuleId, TypeMap};
 use qmluic::uigen::{self, BuildContext, DynamicBindingHandling, XmlWriter};
@@ -98,15 +100,50 @@ fn render_report(doc: &UiDocument, diagnostics: &Diagnostics) -> Result<usize, S
     Ok(out.into_inner().len())
 }
 
-fn translate_one(type_map: &TypeMap, req: &Value, mode_name: &str) -> Value {
-    let src = req["src"].as_str().expect("src").to_owned();
+/// Writes the request's "files" into a scratch directory and registers the directory modules reachable from "path".
+fn load_files(type_map: &mut TypeMap, req: &Value, docs_cache: &mut UiDocumentsCache) -> Option<(camino::Utf8PathBuf, Value)> {
+    let files = req["files"].as_object()?;
+    let base = std::env::temp_dir().join(format!("vh-{}-{}", std::process::id(), NEXT_DIR.fetch_add(1, Ordering::SeqCst)));
+    let base = camino::Utf8PathBuf::from_path_buf(base).expect("utf-8 temp dir");
+    for (name, content) in files {
+        let p = base.join(name);
+        fs::create_dir_all(p.parent().unwrap()).unwrap();
+        fs::write(&p, content.as_str().unwrap()).unwrap();
+    }
+    let main = base.join(req["path"].as_str().expect("path"));
+    let mut pd = ProjectDiagnostics::new();
+    let r = qmldir::populate_directories(type_map, docs_cache, [&main], &mut pd);
+    let info = json!({
+        "populate_error": r.err().map(|e| e.to_string()),
+        "project_diags": pd.iter().map(|(p, ds)| json!({"file": p.strip_prefix(&base).map(|x| x.to_string()).unwrap_or_else(|_| p.to_string()), "diags": diag_json(ds)})).collect::<Vec<_>>(),
+    });
+    Some((main, info))
+}
+
+static NEXT_DIR: AtomicU64 = AtomicU64::new(0);
+
+fn translate_one(type_map: &mut TypeMap, req: &Value, mode_name: &str) -> Value {
+    let mut docs_cache = UiDocumentsCache::new();
+    let loaded = load_files(type_map, req, &mut docs_cache);
+    let type_map: &TypeMap = type_map;
+    let src = req["src"].as_str().map(|s| s.to_owned()).unwrap_or_default();
     let type_name = req["type_name"].as_str().unwrap_or("MyType").to_owned();
     let want_ir = req["ir"].as_bool().unwrap_or(false);
     let want_render = req["render"].as_bool().unwrap_or(false);
     let lowercase = req["lowercase"].as_bool().unwrap_or(true);
     let indent = req["indent"].as_bool().unwrap_or(true);
     let t0 = Instant::now();
-    let doc = UiDocument::parse(src, type_name, None);
+    let parsed;
+    let doc: &UiDocument = match &loaded {
+        Some((main, _)) => match docs_cache.get(main) {
+            Some(d) => d,
+            None => return json!({"built": false, "load_error": "source not loaded", "files": loaded.as_ref().map(|x| x.1.clone())}),
+        },
+        None => {
+            parsed = UiDocument::parse(src, type_name, None);
+            &parsed
+        }
+    };
     let syntax_errors: Vec<Value> = if doc.has_syntax_error() {
         doc.collect_syntax_errors()
             .iter()
@@ -128,7 +165,7 @@ fn translate_one(type_map: &TypeMap, req: &Value, mode_name: &str) -> Value {
             sink.borrow_mut().push(ir::observed_to_json(oc));
         })));
     }
-    let r = uigen::build(&ctx, &doc, &mut diagnostics);
+    let r = uigen::build(&ctx, doc, &mut diagnostics);
     uigen::verif::set_observer(None);
     let mut out = json!({
         "syntax_error": doc.has_syntax_error(),
@@ -162,12 +199,18 @@ fn translate_one(type_map: &TypeMap, req: &Value, mode_name: &str) -> Value {
         out["ir"] = Value::Array(irs.borrow_mut().drain(..).collect());
     }
     if want_render {
-        match render_report(&doc, &diagnostics) {
+        match render_report(doc, &diagnostics) {
             Ok(n) => out["render_bytes"] = json!(n),
             Err(e) => out["render_error"] = json!(e),
         }
     }
     out["wall_us"] = json!(t0.elapsed().as_micros() as u64);
+    if let Some((main, info)) = &loaded {
+        out["files"] = info.clone();
+        if let Some(dir) = main.ancestors().find(|p| p.file_name().map(|n| n.starts_with("vh-")).unwrap_or(false)) {
+            let _ = fs::remove_dir_all(dir);
+        }
+    }
     out
 }
 
@@ -191,7 +234,7 @@ fn cmd_translate(args: &[String]) {
     if metatypes.is_empty() {
         metatypes.push("/repo/contrib/metatypes".to_owned());
     }
-    let type_map = load_type_map(&metatypes);
+    let mut type_map = load_type_map(&metatypes);
 
     // watchdog: if one translation exceeds the deadline, report and exit(3)
     let started = Arc::new(AtomicU64::new(0)); // millis since t0 when current item started; 0 = idle
@@ -250,7 +293,7 @@ fn cmd_translate(args: &[String]) {
         let mut runs = serde_json::Map::new();
         for m in &modes {
             started.store(t0.elapsed().as_millis() as u64 + 1, Ordering::SeqCst);
-            let r = panic::catch_unwind(AssertUnwindSafe(|| translate_one(&type_map, &req, m)));
+            let r = panic::catch_unwind(AssertUnwindSafe(|| translate_one(&mut type_map, &req, m)));
             started.store(0, Ordering::SeqCst);
             let v = match r {
                 Ok(v) => v,
